@@ -26,6 +26,7 @@ func init() {
 		Diff: []string{"D_C07_patches"},
 		Harnesses: []Harness{
 			{Func: "H_C07_patches", Quick: modes(1, 2), Thorough: modes(1, 2, 3), Covers: []string{"end"}, NativeRetries: 40},
+			{Func: "H_C07_paths", Quick: modes(2, 3, 4), Thorough: modes(2, 3, 4, 5), Covers: []string{"end"}},
 		},
 	}
 	sched := &Prop{
@@ -35,7 +36,7 @@ func init() {
 	}
 	all := []*Prop{scope, fast, req, patch, sched}
 	top := &Prop{ID: "C07", Variants: all,
-		Bounds: "map iteration: every map range of the executed code may iterate in a perturbed order chosen by decision variables, at most B ranges per path (quick B=1; thorough B=2 for the small programs): a perturbed range of <=3 entries takes any other permutation, a larger one an adjacent transposition, the reversal or a rotation; programs: 3 designed programs for the Go backend's scope/naming/import/constant/descriptor computation (with and without with_reflection), one three-file program for the whole fastgo generation (no_fmt), one three-file program for the plugin request bytes (with and without include compression), one patch history; schedules: every interleaving of asyncPostProcess.OnFinished for <=2 jobs (the C19 machinery)",
+		Bounds: "map iteration: every map range of the executed code may iterate in a perturbed order chosen by decision variables, at most B ranges per path (quick B=1; thorough B=2 for the small programs): a perturbed range of <=3 entries takes any other permutation, a larger one an adjacent transposition, the reversal or a rotation; programs: 3 designed programs for the Go backend's scope/naming/import/constant/descriptor computation (with and without with_reflection), one three-file program for the whole fastgo generation (no_fmt), one three-file program for the plugin request bytes (with and without include compression), one patch history; 2..4 (thorough 5) colliding submissions split over Feed calls in every way must leave pairwise distinct paths; schedules: every interleaving of asyncPostProcess.OnFinished for <=2 jobs (the C19 machinery)",
 		Functions: []string{"golang.BuildScope (scope.init, resolver, namespace, importManager.init)", "(*Scope).ResolveImports", "(*Scope).MarshalDescriptor", "thrift_reflection.GetFileDescriptor", "meta.Marshal", "CodeUtils.BuildFuncMap: ServiceThrows", "CodeUtils.GenFieldTags",
 			"fastgo.(*FastGoBackend).GenerateOne (genBLength, genFastWrite, genFastRead, codewriter.Imports, bitset)", "plugin.MarshalRequest + compressThriftInclude", "generator.(*FileManager).Feed/BuildResponse", "generator.(*insertionPointReplacer).Replace (strings.NewReplacer interpreted)", "generator.(*asyncPostProcess).OnFinished (gosched)"},
 		Assumptions: []string{"text/template rendering (which iterates maps in key order by contract) and go/format are outside the encoding: the Go backend is checked up to the data the templates are given; whole-process runs, GOMAXPROCS and the output directory are outside",
